@@ -44,6 +44,7 @@ type Engine struct {
 	extraCoverage    map[string]map[string]interface{}
 	protoContract map[*ssa.Function]*Contract
 	engineObls    []*Obligation
+	driverRuns    []DriverRun
 	trustedUsed map[string]bool
 	slessUsed   bool
 	allFuncs    map[*ssa.Function]bool
